@@ -1592,8 +1592,14 @@ class FnEmitter:
         if n.startswith('lifetime.') or n.startswith('experimental.noalias') or n.startswith('dbg.') or n == 'assume' or n.startswith('invariant.') or n.startswith('prefetch'):
             return []
         if n.startswith('memcpy.') or n.startswith('memmove.'):
+            const_n = I['args'][2][1][0] == 'int'
+            if not const_n:
+                # symbolic length: CBMC's built-in model allocates a symbolic-size array (solver blow-up); use a byte loop instead
+                return ['ll_memmove_dyn(%s, %s, %s);' % (argv[0], argv[1], argv[2])]
             return ['memmove(%s, %s, %s);' % (argv[0], argv[1], argv[2])] if n.startswith('memmove.') else ['memcpy(%s, %s, %s);' % (argv[0], argv[1], argv[2])]
         if n.startswith('memset.'):
+            if I['args'][2][1][0] != 'int':
+                return ['ll_memset_dyn(%s, %s, %s);' % (argv[0], argv[1], argv[2])]
             return ['memset(%s, %s, %s);' % (argv[0], argv[1], argv[2])]
         if n.startswith('abs.'):
             st = E.sctype(self.L.resolve(I['rty']))
